@@ -1612,3 +1612,18 @@ def _char_ascii_case(ctx, args, ck):
     if lower:
         return Int(z3.If(z3.And(z3.UGE(c.v, 0x41), z3.ULE(c.v, 0x5A)), c.v + 32, c.v), 'char', c.w)
     return Int(z3.If(z3.And(z3.UGE(c.v, 0x61), z3.ULE(c.v, 0x7A)), c.v - 32, c.v), 'char', c.w)
+
+
+@model('char::encode_utf8')
+def _char_encode_utf8(ctx, args, ck):
+    c = args[0]
+    w = ctx.char_width(c)
+    buf = StrBuf([c], [w])
+    # the destination buffer is not written (only the returned &mut str is used by callers in this crate)
+    return StrRef(buf, 0, w)
+
+
+@model('char::to_string')
+def _char_to_string(ctx, args, ck):
+    c = ctx.m.peel(args[0])
+    return new_string_from([c], [ctx.char_width(c)])
